@@ -101,6 +101,7 @@ inductive Tok where
   | sgr (params : List (List Nat))
   | showCursor (on : Bool)         -- CSI ? 25 h/l
   | cursorShape (n : Nat)          -- DECSCUSR
+  | osc8 (params url : List Nat)   -- OSC 8 ; params ; url ST: the hyperlink of the glyphs printed from now on ("" closes it)
   deriving DecidableEq, Repr, Inhabited
 
 inductive Res where
@@ -306,6 +307,7 @@ def step (t : T) : Tok → Res
   | .sgr params => one { t with pen := Spec.sgr t.pen params }
   | .showCursor on => one { t with cursorVisible := on }
   | .cursorShape n => one { t with cursorShape := n }
+  | .osc8 _ url => one { t with link := url }
 
 /-! ### comparison -/
 
@@ -336,7 +338,7 @@ def gridAccepts (spec actual : TGrid) : Bool :=
 def T.accepts (spec actual : T) : Bool :=
   spec.rows = actual.rows && spec.cols = actual.cols && spec.onAlt = actual.onAlt &&
   spec.row = actual.row && spec.col = actual.col && spec.pw = actual.pw &&
-  spec.pen = actual.pen && spec.top = actual.top && spec.bottom = actual.bottom &&
+  spec.pen = actual.pen && spec.link = actual.link && spec.top = actual.top && spec.bottom = actual.bottom &&
   gridAccepts spec.grid actual.grid
 
 end VaxisModel.Spec.Term
